@@ -336,3 +336,56 @@ Proof.
   cbv zeta. match goal with |- (if ?c then _ else _) = _ => destruct c end; [reflexivity|].
   rewrite H. reflexivity.
 Qed.
+
+(* ------------------------------------------------------------------------------------------ *)
+(* sorted indices -> ranges                                                                   *)
+(* ------------------------------------------------------------------------------------------ *)
+
+(* the rows of a take, in request order *)
+Definition rows_at {X} (l : list X) (idx : list N) : list X := concat (map (fun i => slice l (i, i + 1)) idx).
+
+Fixpoint sorted_from (prev : N) (l : list N) : Prop :=
+  match l with [] => True | x :: r => prev <= x /\ sorted_from x r end.
+
+Lemma itr_go_head (start prev : N) (rest : list N) :
+  exists e tl, itr_go start prev rest = (start, e) :: tl.
+Proof.
+  revert start prev; induction rest as [|x rest IH]; intros start prev; cbn [itr_go].
+  - eexists _, _; reflexivity.
+  - destruct (x =? prev + 1); [apply IH | eexists _, _; reflexivity].
+Qed.
+
+Lemma itr_go_spec {X} (l : list X) (total : N) : forall rest start prev,
+  start <= prev -> prev < total -> sorted_from prev rest -> Forall (fun i => i < total) rest ->
+  chain (itr_go start prev rest) /\ ends_le total (itr_go start prev rest) /\
+  concat (map (slice l) (itr_go start prev rest)) = slice l (start, prev + 1) ++ rows_at l rest.
+Proof.
+  induction rest as [|x rest IH]; intros start prev Hsp Hpt Hs Hb; cbn [itr_go].
+  - cbn [chain map concat rows_at]. split; [split; [lia | split; exact I]|]. split.
+    + constructor; [cbn [snd]; lia | constructor].
+    + reflexivity.
+  - cbn [sorted_from] in Hs. destruct Hs as (Hpx & Hs). inversion Hb as [|? ? Hx Hb']; subst.
+    destruct (x =? prev + 1) eqn:E.
+    + apply N.eqb_eq in E. destruct (IH start x ltac:(lia) Hx Hs Hb') as (H1 & H2 & H3).
+      split; [exact H1|]. split; [exact H2|]. rewrite H3.
+      unfold rows_at; cbn [map concat]. rewrite app_assoc. f_equal.
+      rewrite E. apply slice_split; lia.
+    + apply N.eqb_neq in E. destruct (IH x x ltac:(lia) Hx Hs Hb') as (H1 & H2 & H3).
+      destruct (itr_go_head x x rest) as (e & tl & Hh).
+      split.
+      * cbn [chain]. split; [lia|]. split; [|exact H1]. rewrite Hh. lia.
+      * split; [constructor; [cbn [snd]; lia | exact H2]|].
+        cbn [map concat]. rewrite H3. unfold rows_at; cbn [map concat]. reflexivity.
+Qed.
+
+(* take: a sorted (non-strict: rows may repeat) in-bounds index list becomes a request in the domain
+   of the scheduling theorem whose rows are the indexed rows, in order *)
+Theorem indices_to_ranges_exact {X} (l : list X) (i0 : N) (rest : list N) :
+  sorted_from i0 rest -> Forall (fun i => i < nlen l) (i0 :: rest) ->
+  exists rs, indices_to_ranges (i0 :: rest) = Ok rs /\ chain rs /\ ends_le (nlen l) rs /\
+             concat (map (slice l) rs) = rows_at l (i0 :: rest).
+Proof.
+  intros Hs Hb. inversion Hb as [|? ? H0 Hb']; subst. cbn [indices_to_ranges].
+  destruct (itr_go_spec l (nlen l) rest i0 i0 (N.le_refl _) H0 Hs Hb') as (H1 & H2 & H3).
+  eexists. split; [reflexivity|]. split; [exact H1|]. split; [exact H2|]. exact H3.
+Qed.
